@@ -175,3 +175,100 @@ def h4(k: int) -> bool:
         if not ok:
             _say(msg)
         return ok
+
+
+# =========================================================================== C07: identical data is stored once
+EQ = [bytes([0x21 + i]) * 7 + bytes(range(10 * i, 10 * i + 25)) for i in range(4)]       # four 32-byte files, distinct contents
+DSETS = [
+    {'a.bin': X + Y, 'b.bin': Y},                                  # shared block between files
+    {'a.bin': EQ[0], 'b.bin': EQ[1], 'c.bin': EQ[2], 'd.bin': EQ[3]},   # equal sizes: order is decided by the path tie-break
+    {'a.bin': W + X + W + X, 'e.bin': X[:8] * 3},                  # repeated block inside one file
+    {'p.bin': X + Y + Z, 'q.bin': X + Y + Z, 'r.bin': b''},        # identical files
+]
+ORDERS = [(0, 1, 2, 3), (3, 1, 0, 2), (2, 3, 1, 0)]
+
+
+def dedup_case(ds, o1, o2, u1, u2, conc, as_dir):
+    """Snapshot of data set `ds` by user u1 (argument order o1), then of the SAME unchanged files by u2 (order o2)."""
+    with world.scratch('c07') as d:
+        h = History(d, encrypted=True, concurrent=conc)
+        src = d / 'data'
+        src.mkdir()
+        names = sorted(DSETS[ds])
+        for n in names:
+            (src / n).write_bytes(DSETS[ds][n])
+
+        def args(o):
+            if as_dir:
+                return [src]
+            return [src / names[i] for i in ORDERS[o] if i < len(names)]
+        r1 = h.run(h.repo(u1).snapshot(paths=args(o1)))
+        objs1 = {k for k in h.be.objs if k.startswith('data/')}
+        up1 = h.be.counts['upload_stream']
+        fam1, fam2 = h.U.family(u1), h.U.family(u2)
+        # (4) right after the first snapshot: chunk objects == distinct chunks referenced
+        if len(objs1) != len(set(r1.chunks)):
+            return False, f'{len(objs1)} chunk objects for {len(set(r1.chunks))} distinct chunks referenced'
+        if conc == 1 and up1 != len(set(r1.chunks)):
+            # (with several workers two occurrences of one chunk may both be uploaded before either exists: same object, not a violation)
+            return False, f'{up1} chunk uploads for {len(set(r1.chunks))} distinct chunks with a single worker'
+        r2 = h.run(h.repo(u2).snapshot(paths=args(o2)))
+        up2 = h.be.counts['upload_stream'] - up1
+        objs2 = {k for k in h.be.objs if k.startswith('data/')}
+        if fam1 == fam2:
+            if up2 != 0:
+                return False, f'unchanged data snapshotted again by {u2} (same key family as {u1}) uploaded {up2} chunk(s)'
+            if objs2 != objs1 or set(r2.chunks) != set(r1.chunks):
+                return False, 'second snapshot of unchanged data references/created different chunk objects'
+        else:
+            if objs2 & objs1 != objs1 or (objs2 - objs1) & objs1:
+                return False, 'first family objects changed'
+            if len(objs2 - objs1) != len(set(r2.chunks)):
+                return False, f'independent user created {len(objs2 - objs1)} objects for {len(set(r2.chunks))} distinct chunks'
+            own2 = {h.repos[u2]._chunk_digest_to_location(dg) for dg in r2.chunks}
+            if own2 & objs1:
+                return False, 'independent key families alias object names'
+        return True, ''
+
+
+def e_dedup(k: int) -> bool:
+    """
+    pre: shard(4 * 3 * 3 * 3 * 3 * 2 * 2)[0] <= k < shard(4 * 3 * 3 * 3 * 3 * 2 * 2)[1]
+    post: _
+    """
+    ds, o1, o2, u1, u2, ci, as_dir = digits(k, [4, 3, 3, 3, 3, 2, 2])
+    with NoTracing():
+        ok, msg = dedup_case(ds, o1, o2, USERS[u1], USERS[u2], [1, 3][ci], bool(as_dir))
+        tick('e_dedup', [ds, o1, o2, USERS[u1], USERS[u2], [1, 3][ci], as_dir])
+        if not ok:
+            _say(ds, o1, o2, USERS[u1], USERS[u2], msg)
+        return ok
+
+
+def e_dedup_hist(k: int) -> bool:
+    """After any 3 snapshots (3 file sets x 3 users) + clean by each family: chunk objects of a family are exactly the
+    distinct chunks its live snapshots reference, and a 4th snapshot repeating the 1st uploads nothing.
+    pre: shard(9 * 9 * 9)[0] <= k < shard(9 * 9 * 9)[1]
+    post: _
+    """
+    c0, c1, c2 = digits(k, [9, 9, 9])
+    with NoTracing():
+        with world.scratch('c07h') as d:
+            h = History(d, encrypted=True)
+            ok, msg = True, ''
+            for c in (c0, c1, c2):
+                h.snapshot(OPS[c][1], OPS[c][2])
+            for fam, u in ((0, 'A'), (1, 'C')):
+                want = {h.repos[s['owner']]._chunk_digest_to_location(dg) for s in h.snaps if h.U.family(s['owner']) == fam for dg in s['chunks']}
+                have = {k2 for k2 in h.be.objs if k2.startswith('data/')}
+                other = {h.repos[s['owner']]._chunk_digest_to_location(dg) for s in h.snaps if h.U.family(s['owner']) != fam for dg in s['chunks']}
+                if have - other != want:
+                    ok, msg = False, f'family {fam}: {len(have - other)} objects, {len(want)} distinct chunks referenced'
+            before = h.be.counts['upload_stream']
+            h.snapshot(OPS[c0][1], OPS[c0][2])
+            if ok and h.be.counts['upload_stream'] != before:
+                ok, msg = False, 'repeating the first snapshot uploaded chunk payload'
+            tick('e_dedup_hist', [OPS[c0], OPS[c1], OPS[c2]])
+            if not ok:
+                _say(OPS[c0], OPS[c1], OPS[c2], msg)
+            return ok
